@@ -120,6 +120,12 @@ def populate(obj, rng, rec):
             tag += 1
     spec, _ = gen.data_spec(obj, "text_object", "OBJECT", rng, tag=tag)
     obj.add_data({"note": spec})
+    if type(obj).__name__ in ("Curve", "Surface"):
+        # names that mean something on survey classes are ordinary names on an ordinary curve or surface
+        for nm in ("Transmitter ID", "A-B Cell ID"):
+            spec, _ = gen.data_spec(obj, "float", "VERTEX", rng, tag=tag + 7)
+            obj.add_data({nm: spec})
+        rec.see("ordinary-objects-with-survey-like-data-names")
     for assoc in ("VERTEX", "CELL"):
         members = [d for a, d in made if a == assoc]
         if len(members) >= 2:
